@@ -378,15 +378,19 @@ def run(ctx):
     import umap
     import umap.umap_ as UU
     Xr, _ = gen.dataset(rng, 70, 4, kind="clusters")
-    Xn = (Xr[:12] + 0.07 * rng.normal(size=(12, 4))).astype(np.float32)
+    # new points close to one training sample and far from the rest of their neighbourhood: strong and very weak edges together
+    Xn = np.vstack([(Xr[:12] + 0.07 * rng.normal(size=(12, 4))), Xr[12:18] + 1e-4]).astype(np.float32)
     for om in (["euclidean", "haversine", "manhattan", "hyperboloid"] if ctx.thorough else ["euclidean", "haversine", "manhattan"]):
         case = {"family": "transform-reference", "output_metric": om}
         seen = []
+        sched = []
         orig = {nm: getattr(UU, nm) for nm in ("optimize_layout_euclidean", "optimize_layout_generic")}
 
         def wrap(nm):
             def w(head, tail, *a, **kw):
                 t0 = np.array(tail, copy=True)
+                # positional layout of both optimisers: (head, tail, head_idx, tail_idx, n_epochs, n_vertices, epochs_per_sample, ...)
+                sched.append((np.array(a[4], dtype=np.float64, copy=True), a[2]))
                 out = orig[nm](head, tail, *a, **kw)
                 seen.append((nm, head is tail, bool(np.array_equal(t0, tail, equal_nan=True)), float(np.nanmax(np.abs(t0 - tail))) if t0.shape == tail.shape else -1.0))
                 return out
@@ -409,6 +413,13 @@ def run(ctx):
                 ctx.violation("frozen-reference", f"transform (output_metric={om}): {nm} moved the reference layout it was given by up to {dmax}", case)
         if not np.array_equal(m.embedding_, emb0, equal_nan=True):
             ctx.violation("frozen-reference", f"transform (output_metric={om}) changed embedding_", case)
+        for eps_, ne_ in sched:
+            # an edge handed to the scheduler is due when its clock <= epoch: a non-positive period (the -1 the schedule builder gives
+            # a zero weight) means "used in every epoch" — exactly the edges that must never be used
+            if len(eps_) and float(np.min(eps_)) < 1.0:
+                ctx.violation("pruned-edge-scheduled", f"transform (output_metric={om}) hands {int((eps_ < 1.0).sum())} edge(s) with period "
+                                                       f"{float(np.min(eps_))} (< 1) to the optimiser: edges weaker than w_max/n_epochs would be used "
+                                                       f"in every epoch", case)
         ctx.case(key="tref" + om, nontrivial=bool(seen), part="transform-reference", output_metric=om, optimiser=seen[0][0] if seen else "none")
     # the kernels' documented default is a fixed reference: calls that rely on it
     for t in range(4):
